@@ -337,6 +337,7 @@ void HistSim::opFill(const Op& op, size_t ix) {
     count("fill.added", added);
     if (failedOnce) {
       count("fill.hit_limit");
+      count("fault.capacity_limit_hit");
       ds.leaky = true;
       // legitimacy: the failure must come from exhaustion of the slot space
       if (lastOpFaults_ == 0 && allocs_[size_t(ds.alloc < 0 ? 0 : ds.alloc)]->nFaultsFiredOp == 0) {
